@@ -36,7 +36,7 @@ QUERIES = [None, "x=1", "x=1&y=2"]
 O_HOST = [None, "virtual.example:8443"]
 O_ORIGIN = ["absent", None, "https://origin.example"]
 O_SUPPRESS = [False, True]
-O_SUBP = [None, ["a"], ["a", "b"], ["chat", "superchat", "v2.chat"]]
+O_SUBP = [None, ["a"], ["a", "b"], ["chat", "superchat", "v2.chat"], ["STOMP"], ["v12.Stomp", "chat", "Chat"]]
 O_COOKIE = [None, "c=9; d=10"]
 O_HEADER = [None, ["X-One: 1", "X-Two: two words"], {"X-One": "1", "X-Two": "two words"}, {"X-One": "1", "X-None": None},
             {"X-One": "1", "X-Empty": "", "X-None": None, "X-Zero": "0"}, ["X-Empty: ", "X-Zero: 0"],
